@@ -93,10 +93,25 @@ func erealSiblings() {
 	if report.Thorough() {
 		ns = []int{3, 4}
 	}
+	// last cell: five endpoints behind the one host:port (as many as a round probes at once), none silent, every health
+	// URL answering 200 after 1.5 s (a busy gateway), check_timeout 4 s - whatever the order in which the probes start,
+	// all of them fit into their timeout only if they are not queued behind each other (two at a time: 1.5, 3, 4.5 s)
+	type cellT struct{ n, mask int }
+	var cells []cellT
 	for _, n := range ns {
 		for mask := 0; mask < 1<<uint(n); mask++ {
-			if mask == 1<<uint(n)-1 {
-				continue // nobody answers: nothing to reach
+			if mask != 1<<uint(n)-1 { // (nobody answers: nothing to reach)
+				cells = append(cells, cellT{n, mask})
+			}
+		}
+	}
+	cells = append(cells, cellT{5, -1})
+	{
+		for _, ct := range cells {
+			n, mask := ct.n, ct.mask
+			slow := mask < 0
+			if slow {
+				mask = 0
 			}
 			if report.Expired() {
 				res.NotExhaustive("E-real siblings: time budget")
@@ -113,15 +128,22 @@ func erealSiblings() {
 					}
 					return
 				}
+				if slow {
+					time.Sleep(1500 * time.Millisecond)
+				}
 				w.WriteHeader(200)
 			})}
 			go srv.Serve(ln)
 			repo := discovery.NewStaticEndpointRepositoryWithFactory(sharedFactory())
+			interval, timeout := 5*time.Second, 1500*time.Millisecond
+			if slow {
+				interval, timeout = 10*time.Second, 4*time.Second
+			}
 			var cfgs []config.EndpointConfig
 			for i := 0; i < n; i++ {
 				p := 100
 				cfgs = append(cfgs, config.EndpointConfig{URL: fmt.Sprintf("http://%s/e%d", ln.Addr().String(), i), Name: fmt.Sprintf("E%d", i), Type: "openai-compatible", Priority: &p,
-					HealthCheckURL: "/health", ModelURL: "/v1/models", CheckInterval: 5 * time.Second, CheckTimeout: 1500 * time.Millisecond})
+					HealthCheckURL: "/health", ModelURL: "/v1/models", CheckInterval: interval, CheckTimeout: timeout})
 			}
 			if err := repo.LoadFromConfig(ctx, cfgs); err != nil {
 				res.Break("E-real siblings: configuration rejected: %v", err)
@@ -137,6 +159,9 @@ func erealSiblings() {
 				got[e.Name] = string(e.Status)
 			}
 			cell := fmt.Sprintf("E-real siblings: %d endpoints behind one host:port, health URLs silent for mask %0*b, check_timeout 1.5s", n, n, mask)
+			if slow {
+				cell = fmt.Sprintf("E-real siblings: %d endpoints behind one host:port, every health URL answers 200 after 1.5 s, check_timeout 4 s", n)
+			}
 			res.Add("traces_validated_against_impl", 1)
 			res.Add("transitions", int64(n))
 			res.SetAdd("states", fmt.Sprintf("%s|%v", cell, got))
